@@ -441,6 +441,67 @@ def import_cycles_shard(args):
     return agg
 
 
+# ------------------------------------------------------------------------------------------------
+# very large limits: "raising the limit never changes the outcome of a program that already succeeded"
+
+HUGE_LIMITS = [10 ** 7, 10 ** 8, 10 ** 9, 2 ** 31 - 1, 2 ** 31, 2 ** 32, 10 ** 10, 10 ** 12, 10 ** 13, 2 ** 53, 10 ** 17, 10 ** 18, 2 ** 62,
+               2 ** 63 - 1, 2 ** 63, 2 ** 64 - 2, 2 ** 64 - 1]
+HUGE_PROGRAMS = ["1", "local f(n) = if n == 0 then 0 else 1 + f(n - 1); f(20)", "std.foldl(function(a, i) [a], std.range(1, 15), [])",
+                 "{a: [1, {b: 'x'}], c: std.length(std.range(1, 100))}", "std.sort([3, 1, 2], function(x) -x)",
+                 "local a = [1, a[0] + 1]; a[1]", "std.manifestJsonEx({a: {b: {c: 1}}}, ' ')", "error 'expected failure'",
+                 "local f(n) = f(n + 1) + 1; if false then f(0) else 'unused recursion'"]
+
+
+def huge_limits_shard(args):
+    progs, = args
+    import subprocess
+    agg = Agg()
+    for src in progs:
+        ref = None
+        for s in [1000] + HUGE_LIMITS:
+            # a dedicated child per run: aborting because memory was reserved in proportion to the limit is the observation here
+            srv = Server(mem_gib=2)
+            lines = run_lines(src.encode(), stack=s, multiline=0)
+            agg.evaluations += 1
+            try:
+                recs = srv.request(lines, timeout=60)
+                o = Outcome(recs)
+                key = (o.cls, o.out if o.cls == "value" else o.rec.get("kind"))
+                if o.cls == "panic":
+                    key = ("panic", o.rec.s("msg"))
+            except Crashed as e:
+                key = ("died:" + e.kind, re.sub(r"[0-9]+", "N", e.detail[-120:]))
+            finally:
+                srv.close()
+            if ref is None:
+                ref = key
+            elif key != ref:
+                agg.violation({"kind": "outcome_changes_with_huge_limit", "via": "api", "how": key[0]},
+                              {"program": src, "limit": s, "with_limit_1000": list(map(str, ref)), "with_this_limit": list(map(str, key))},
+                              {"script": lines})
+                break
+            # the command-line tool with the same limit
+            try:
+                p = subprocess.run([common.CLI, "-s", str(s), "-e", src], capture_output=True, timeout=60, env=dict(os.environ, NO_COLOR="1"),
+                                   preexec_fn=common._limits(2 << 30))
+                ckey = (p.returncode, p.stdout)
+            except subprocess.TimeoutExpired:
+                ckey = ("timeout", b"")
+            agg.evaluations += 1
+            if s == 1000:
+                cref = ckey
+            elif ckey != cref:
+                agg.violation({"kind": "outcome_changes_with_huge_limit", "via": "cli", "how": str(ckey[0])},
+                              {"program": src, "limit": s, "with_limit_1000": [str(cref[0]), cref[1][:100].decode("utf-8", "replace")],
+                               "with_this_limit": [str(ckey[0]), ckey[1][:100].decode("utf-8", "replace")],
+                               "stderr": (p.stderr[-300:].decode("utf-8", "replace") if ckey[0] != "timeout" else "")},
+                              {"argv": ["-s", str(s), "-e", src]})
+                break
+            agg.nontrivial.add(common.h64("huge", src, str(s)))
+            agg.add("huge_limits_seen", s)
+    return agg
+
+
 def native_cycle_cases(rng, funcs, quick):
     """Every std function with a self-referential array / object / string-array in every argument position."""
     cases = [(name, src, True) for name, src in NATIVE_CYCLES.items()]
@@ -554,6 +615,8 @@ def run(tier, seed):
                                                    ("object_self_cycle", "manifest_cycle", "equals_cycle", "toString_cycle") else [1])]
     for a in common.pmap(cycles_shard, [(seed + i, cj[i::8]) for i in range(8)]):
         total.merge(a)
+    for a in common.pmap(huge_limits_shard, [(HUGE_PROGRAMS[i::8],) for i in range(8)]):
+        total.merge(a)
     ic = import_cycle_layouts()
     for a in common.pmap(import_cycles_shard, [(ic[i::16],) for i in range(16)]):
         total.merge(a)
@@ -587,7 +650,8 @@ def run(tier, seed):
             "stopped the same way or answer (a dedicated child that exhausts 10 s or 1 GiB on such a tiny program is the "
             "observation 'never stopped'); import cycles of 1-4 real files through the CLI in 11 directory layouts (same directory, "
             "./ and sub/../ spellings, sub-directories with .., -J, file and directory symlinks, entry in a sub-directory) x 5 "
-            "import positions x limits 20..3000: always 'infinite recursion', exit 1; flat workloads of n elements through "
+            "import positions x limits 20..3000: always 'infinite recursion', exit 1; very large limits (10^7 .. 2^64-1, through the API and the -s flag, one child per "
+            "run): the outcome of 9 small programs must be the one they have under a limit of 1000; flat workloads of n elements through "
             "array builtins: never a crash, monotone. distinct_nontrivial = distinct (shape, depth, limit) points run.")
     return common.finish(PROP, tier, seed, total, rule, t0,
                          assumptions=["'however deeply or endlessly' is restated as bounded sweeps (depth <= 10^5, limit <= 10^6)",
